@@ -274,6 +274,44 @@ def monitor_scope():
         _tls.depth -= 1
 
 
+_DB_FILTER = ("ignore", None, RuntimeWarning, None, 0)     # utils.db() of the pinned tree installs this one on every call
+
+
+def ambient_snapshot(full=True):
+    """process-global state that is neither an argument, nor gv, nor numpy's RNG: numpy error state and print options, the
+    warnings filter list and (full=True) the working directory and the environment."""
+    snap = {"np.geterr": np.geterr(), "np.printoptions": np.get_printoptions(), "warnings.filters": [f for f in warnings.filters if f != _DB_FILTER]}
+    if full:
+        snap["cwd"] = os.getcwd()
+        snap["environ"] = dict(os.environ)
+    return snap
+
+
+def ambient_diff(a, b):
+    """None if equal, else a short description of what a call left changed."""
+    out = []
+    for k in a:
+        if k == "warnings.filters":
+            if len(a[k]) != len(b[k]) or any(x is not y and tuple(x) != tuple(y) for x, y in zip(a[k], b[k])):
+                new = [tuple(str(z) for z in f) for f in b[k] if all(tuple(f) != tuple(g) for g in a[k])]
+                out.append(f"warnings.filters changed (new entries: {new[:3]}; {len(a[k])} -> {len(b[k])} filters)")
+        elif a[k] != b[k]:
+            if isinstance(a[k], dict):
+                d = {kk: (a[k].get(kk), b[k].get(kk)) for kk in set(a[k]) | set(b[k]) if a[k].get(kk) != b[k].get(kk)}
+                out.append(f"{k} changed: {d}")
+            else:
+                out.append(f"{k} changed: {a[k]!r} -> {b[k]!r}")
+    return "; ".join(out)[:400] or None
+
+
+def long_or(rng, i, n, longs=(32769, 50000, 70001, 131075), every=16, phase=7):
+    """record-length helper: every `every`-th case of a workload replaces the drawn length by one beyond the usual internal
+    block sizes (2**15, 2**16, 2**17; not multiples of them), so that chunked / narrow-index code paths are reached."""
+    if i % every == phase:
+        return int(longs[int(rng.integers(len(longs)))])
+    return n
+
+
 def opticomlib_modules():
     return [m for n, m in list(sys.modules.items()) if m is not None and (n == "opticomlib" or n.startswith("opticomlib."))]
 
